@@ -22,6 +22,9 @@ func (r *runner) root() {
 	r.t0 = time.Now()
 	r.bubble = currentBubble()
 	cfg := &router.Config{}
+	if r.h.Template {
+		cfg.RealmTemplate = r.realmConfig("")
+	}
 	for _, u := range r.h.Realms {
 		cfg.RealmConfigs = append(cfg.RealmConfigs, r.realmConfig(u))
 		r.realms[u] = true
@@ -411,13 +414,12 @@ func (r *runner) execOp(i int, op *Op, gate chan struct{}) {
 		r.mu.Unlock()
 		s.push(&outItem{kind: kindDrop, desc: "drop", gate: gate, opTr: ot})
 	case "join":
-		if !r.realms[op.Realm] && r.h.Prop == "C07" {
-			r.skip(ot, "no such realm")
-			return
-		}
-		ns := r.newSession(SessionSpec{Realm: op.Realm, Q: op.Q, Wrap: op.Wrap}, false, gate)
+		ns := r.newSessionAuth(SessionSpec{Realm: op.Realm, Q: op.Q, Wrap: op.Wrap}, false, gate, op.HoldUntil == "closed")
 		if !r.realms[op.Realm] {
 			ns.expGone = "realm absent"
+		}
+		if op.HoldUntil == "closed" {
+			ns.expGone = "attach held across the close"
 		}
 	case "hello_goodbye":
 		r.newSession(SessionSpec{Realm: op.Realm, Q: op.Q, Wrap: true}, true, gate)
